@@ -55,9 +55,10 @@ def build_crate(crate, features):
     lock_dst = os.path.join(HARNESS_WS, "Cargo.lock")
     with open(os.path.join(TARGET, ".build.lock"), "w") as lk:
         fcntl.flock(lk, fcntl.LOCK_EX)
-        if not os.path.exists(lock_dst):
-            with open(lock_src) as f, open(lock_dst, "w") as g:
-                g.write(f.read())
+        # always start from /repo's lock file: it pins (also yanked) versions that the offline
+        # registry index would otherwise refuse to select for newly added dependencies
+        with open(lock_src) as f, open(lock_dst, "w") as g:
+            g.write(f.read())
         cmd = ["cargo", "build", "--offline", "-p", crate]
         if features:
             cmd += ["--features", ",".join(features)]
